@@ -360,7 +360,7 @@ theorem c05_floor_toNat_natCast (n : Nat) : ((n : Rat)).floor.toNat = n := by
 
 theorem c05_multOf_of_eq (a : Asg) (i : Nat) (e : Edge) (n : Nat) (h : a (edgeVar e i) = (n : Rat)) :
     multOf a i e = n := by
-  unfold multOf; rw [h, c05_floor_toNat_natCast]
+  unfold multOf; rw [h, pyRoundCount_natCast]
 
 theorem c05_one_lt_two_pow_qBits (ub : Rat) (h : 0 < ub) : 1 < 2 ^ qBitsOf ub := by
   unfold qBitsOf
